@@ -76,6 +76,43 @@ func (s *VerifSession) Handle(key []byte, raw []byte) (logged string, panicked b
 	return buf.String(), false
 }
 
+// VerifConcurrent: one BleStruct, one goroutine per device (as ble.New starts them), each handling its own advertisement
+// `rounds` times; returns everything that was logged (lines carry the device name "dev<i>").
+func VerifConcurrent(keys, raws [][]byte, rounds int) (logged string, panics int) {
+	var buf bytes.Buffer
+	oldOut, oldFlags := log.Writer(), log.Flags()
+	log.SetOutput(&buf)
+	log.SetFlags(0)
+	defer func() {
+		log.SetOutput(oldOut)
+		log.SetFlags(oldFlags)
+	}()
+	ctx, cancel := context.WithCancel(context.Background())
+	defer cancel()
+	b := &BleStruct{cfg: verifConfig{}, ctx: ctx, cancel: cancel}
+	done := make(chan int, len(keys))
+	for i := range keys {
+		go func(i int) {
+			p := 0
+			for r := 0; r < rounds; r++ {
+				func() {
+					defer func() {
+						if rec := recover(); rec != nil {
+							p++
+						}
+					}()
+					b.handleNewManufacturerData(verifDevice{name: "dev" + string(rune('0'+i)), key: keys[i]}, append([]byte(nil), raws[i]...))
+				}()
+			}
+			done <- p
+		}(i)
+	}
+	for range keys {
+		panics += <-done
+	}
+	return buf.String(), panics
+}
+
 // VerifMatch returns the index of the configured device matched for a BlueZ address, or -1.
 func VerifMatch(macs [][]byte, addr string) (idx int, panicked bool) {
 	var buf bytes.Buffer
